@@ -833,6 +833,75 @@ impl LinkCongestionState {
     }
 }
 
+/// Verification hooks (feature `verif-hooks`, OFF by default): build / observe an
+/// arbitrary controller state from the external harness crates. Add-only.
+#[cfg(feature = "verif-hooks")]
+#[derive(Clone, Copy, Debug)]
+pub struct VhCcParts {
+    pub state: CcState,
+    pub climb_mode: ClimbMode,
+    pub target_bps: u64,
+    pub rtt_ewma_ms: f64,
+    pub rtt_var_ms: f64,
+    pub rtt_min_ms: f64,
+    pub rtt_min_stamp_ms: u64,
+    pub last_rtt_update_ms: u64,
+    /// at most one loss sample (ts, lost, sent) in the window
+    pub loss_sample: Option<(u64, u32, u32)>,
+    pub fast_recovery_ticks: u32,
+    pub loss_ewma: f64,
+    pub loss_ewma_last_ms: u64,
+    pub loss_high_since_ms: u64,
+    pub loss_degraded: bool,
+    pub backoff_ticks: u32,
+    pub backoff_entry_loss_pm: u32,
+    pub loss_uncongestive: bool,
+    pub uncongestive_ticks: u32,
+}
+
+#[cfg(feature = "verif-hooks")]
+impl LinkCongestionState {
+    pub fn vh_from_parts(p: VhCcParts) -> Self {
+        let mut s = Self {
+            state: p.state,
+            climb_mode: p.climb_mode,
+            target_bps: p.target_bps,
+            rtt_ewma_ms: p.rtt_ewma_ms,
+            rtt_var_ms: p.rtt_var_ms,
+            rtt_min_ms: p.rtt_min_ms,
+            rtt_min_stamp_ms: p.rtt_min_stamp_ms,
+            last_rtt_update_ms: p.last_rtt_update_ms,
+            fast_recovery_ticks: p.fast_recovery_ticks,
+            loss_ewma: p.loss_ewma,
+            loss_ewma_last_ms: p.loss_ewma_last_ms,
+            loss_high_since_ms: p.loss_high_since_ms,
+            loss_degraded: p.loss_degraded,
+            backoff_ticks: p.backoff_ticks,
+            backoff_entry_loss_pm: p.backoff_entry_loss_pm,
+            loss_uncongestive: p.loss_uncongestive,
+            uncongestive_ticks: p.uncongestive_ticks,
+            ..Self::default()
+        };
+        if let Some((ts_ms, lost, sent)) = p.loss_sample {
+            s.loss_samples.push(LossSample { ts_ms, lost, sent });
+            s.window_lost = lost;
+            s.window_sent = sent;
+        }
+        s
+    }
+
+    /// (loss_ewma, loss_high_since_ms, loss_degraded, rtt_ewma_ms, rtt_min_ms)
+    pub fn vh_loss_view(&self) -> (f64, u64, bool, f64, f64) {
+        (
+            self.loss_ewma,
+            self.loss_high_since_ms,
+            self.loss_degraded,
+            self.rtt_ewma_ms,
+            self.rtt_min_ms,
+        )
+    }
+}
+
 #[derive(Copy, Clone, Debug)]
 pub struct LinkCcSnapshot {
     pub state: CcState,
